@@ -192,7 +192,7 @@ def c16(ctx):
     summ = V.gen_traces(ctx, shards=12)
     V.validate(ctx, "Trace_C16", summ, V.default_sig, par=12)
     # byte streams kept by Go's coverage-guided fuzzer while it drives the real Sync: judged like the others
-    rows, nrows = V.go_fuzz(ctx, "FuzzC16", 90 if thorough else 12, parallel=8)
+    rows, nrows = (V.go_fuzz(ctx, "FuzzC16", 90, parallel=8) if thorough else (None, 0))   # quick stays deterministic
     if nrows:
         summf = V.gen_traces(ctx, shards=8, name="trace-fuzz", extra=["-in", rows])
         V.validate(ctx, "Trace_C16", summf, V.default_sig, par=8)
@@ -200,7 +200,7 @@ def c16(ctx):
                     rule="MC: the read/unread/peek loop as a TLA+ state machine refines the declarative First(s) on every stream of length <= 6 (8 thorough) over {0x47,0x00,0x10,0x05,0x1F}. "
                          "B3: the real packet.Sync on every stream of length <= 6 (8) over the same alphabet (bufio 16-byte buffer and a minimal PeekScanner alternately) plus random long streams "
                          "dense in false sync bytes / reserved PIDs / headers cut by EOF through four reader kinds; TLC checks offset = First(s), bytes left in the reader = suffix from First(s), "
-                         "not-found error iff no plausible header. The corpus Go's coverage-guided fuzzer accumulates while driving the real Sync (12 s quick / 90 s thorough) is judged the same way. "
+                         "not-found error iff no plausible header. The corpus Go's coverage-guided fuzzer accumulates while driving the real Sync (thorough tier, 90 s) is judged the same way. "
                          "class = (reader, outcome, number of sync bytes, length bucket)",
                     trace_module="Trace_C16", sigfn=V.default_sig,
                     assumptions=["TLC/SANY and the JVM", "Go's bufio.Reader and the harness's slice PeekScanner implement Peek/ReadByte/UnreadByte as documented",
@@ -373,7 +373,7 @@ def c11(ctx):
     summ = V.gen_traces(ctx, shards=12)
     V.validate(ctx, "Trace_C11", summ, V.default_sig, par=12)
     # byte strings kept by Go's coverage-guided fuzzer while it drives NewPESHeader: judged when Pes!WellFormed accepts them
-    rows, nrows = V.go_fuzz(ctx, "FuzzC11", 90 if ctx.tier == "thorough" else 12, parallel=8)
+    rows, nrows = (V.go_fuzz(ctx, "FuzzC11", 90, parallel=8) if ctx.tier == "thorough" else (None, 0))   # quick stays deterministic
     if nrows:
         summf = V.gen_traces(ctx, shards=8, name="trace-fuzz", extra=["-in", rows])
         V.validate(ctx, "Trace_C11", summf, V.default_sig, par=8)
@@ -396,7 +396,7 @@ def c12(ctx):
         V.apalache(ctx, "Apa_C12", "Init", inv, length=0, timeout=600)
     summ = V.gen_traces(ctx, shards=12)
     V.validate(ctx, "Trace_C12", summ, V.default_sig, par=12)
-    rows, nrows = V.go_fuzz(ctx, "FuzzC12", 90 if ctx.tier == "thorough" else 12, parallel=8)
+    rows, nrows = (V.go_fuzz(ctx, "FuzzC12", 90, parallel=8) if ctx.tier == "thorough" else (None, 0))   # quick stays deterministic
     if nrows:
         summf = V.gen_traces(ctx, shards=8, name="trace-fuzz", extra=["-in", rows])
         V.validate(ctx, "Trace_C12", summf, V.default_sig, par=8)
@@ -521,7 +521,8 @@ def c05(ctx):
     V.validate(ctx, "Trace_C05", summ, c05_sig, par=12, timeout=3000)
     # inputs chosen by Go's coverage-guided fuzzer over the same entry points: reported inputs and the whole
     # corpus go through the monitored worker and TLC's judgement like the generated ones
-    rows, nrows = V.go_fuzz(ctx, "FuzzC05", 240 if ctx.tier == "thorough" else 20, parallel=12 if ctx.tier == "thorough" else 8)
+    # (thorough tier only: the quick tier stays a deterministic function of VERIF_SEED)
+    rows, nrows = (V.go_fuzz(ctx, "FuzzC05", 240, parallel=12) if ctx.tier == "thorough" else (None, 0))
     if nrows:
         summ2 = V.gen_traces(ctx, shards=12, name="trace-fuzz", extra=["-in", rows])
         V.validate(ctx, "Trace_C05", summ2, c05_sig, par=12, timeout=3000)
@@ -533,7 +534,7 @@ def c05(ctx):
                          "vectors of every format and their near misses (truncation at every (quick: strided) length, every leading byte set to 0/1/v-1/v+1/0x7F/0x80/0xFF, bit flips, extensions, the "
                          "vectors of the other formats, empty, random and 'structural' short strings); descriptors of every tag with bodies 0..6; packet streams (PAT+PMT+foreign) cut and corrupted the "
                          "same way. Every recorded execution is judged by TLC against Totality (outcome in {value,error}, read-only inputs untouched, allocation <= 2 MiB + 4096 x input length). "
-                         "In addition Go's coverage-guided fuzzer (FuzzC05, 20 s quick / 240 s thorough, fresh corpus each run) chooses inputs for the same entry points; every input it reports and its whole "
+                         "In addition Go's coverage-guided fuzzer (FuzzC05, thorough tier only, 240 s, fresh corpus each run) chooses inputs for the same entry points; every input it reports and its whole "
                          "corpus are executed again by the monitored worker and judged the same way. class = (entry point, input source, length bucket, outcome)",
                     trace_module="Trace_C05", sigfn=c05_sig,
                     assumptions=["level is exploration: a TLA+ model cannot observe Go panics/loops; the specification supplies the contract and the structure of the input space",
